@@ -114,3 +114,13 @@ func (r *Rand) Weighted(weights []int) int {
 	}
 	return len(weights) - 1
 }
+
+// VerifSeed is the VERIF_SEED of the batch, set by the worker before any run
+// (engines use it for batch-wide choices such as a window into an enumerated list).
+var VerifSeed uint64 = 1
+
+// ReferenceOnly makes history engines execute only the reference (fresh-object) side of
+// every operation. The orchestrator uses it to attribute a wall-clock timeout: a run that
+// also hangs with the reused objects left out is slow or looping in the library for
+// everybody, which is not a statement about reuse.
+var ReferenceOnly bool
